@@ -21,9 +21,12 @@
 package flow
 
 import (
+	"fmt"
 	"go/ast"
+	"go/constant"
 	"go/token"
 	"go/types"
+	"sort"
 	"strings"
 
 	"golang.org/x/tools/go/cfg"
@@ -41,9 +44,11 @@ type Engine struct {
 	PureOnly bool                   // follow only helpers that compute (no calls but conversions/builtins/pure helpers, no stores)
 	pure     map[*types.Func]int
 
-	preds  map[*cfg.CFG]map[*cfg.Block][]*cfg.Block
-	unsafe map[*cfgq.Graph]map[types.Object]bool
-	writes map[*types.Func]map[*types.Var]bool
+	edgeCons  map[edgeKey][]edgeCons
+	flagDepth int
+	preds     map[*cfg.CFG]map[*cfg.Block][]*cfg.Block
+	unsafe    map[*cfgq.Graph]map[types.Object]bool
+	writes    map[*types.Func]map[*types.Var]bool
 }
 
 // New creates an engine.
@@ -193,20 +198,40 @@ func definesVar(info *types.Info, n ast.Node, obj types.Object) (int, bool) {
 }
 
 // reaching returns the definitions of obj that reach point p and whether the
-// function entry reaches p without a definition.
+// function entry reaches p without a definition. The backward walk is
+// sensitive to the nil-ness of error/pointer locals and the truth of boolean
+// locals: a branch fact about such a variable met on the way (`err == nil` on
+// the edge taken) must agree with what the variable is assigned further back
+// (`err = <non-nil>` in the branch that also assigned obj), otherwise that path
+// is not followed. This removes the values of error branches from the origins
+// seen after `if err != nil { return ... }`.
 func (e *Engine) reaching(g *cfgq.Graph, p cfgq.Point, obj types.Object) (defs []def, fromEntry bool) {
 	preds := e.predsOf(g)
-	seen := map[*cfg.Block]bool{}
-	var scan func(b *cfg.Block, from int)
-	scan = func(b *cfg.Block, from int) {
+	type state struct {
+		b   *cfg.Block
+		key string
+	}
+	seen := map[state]bool{}
+	seenDef := map[ast.Node]bool{}
+	var scan func(b *cfg.Block, from int, cons constraints)
+	scan = func(b *cfg.Block, from int, cons constraints) {
 		for i := from; i >= 0; i-- {
 			if i >= len(b.Nodes) {
 				continue
 			}
-			if idx, ok := definesVar(g.Info, b.Nodes[i], obj); ok {
-				// the bare range identifier of an enclosing statement at the same
-				// position as the use is the use itself
-				defs = append(defs, def{b.Nodes[i], cfgq.Point{B: b, I: i}, idx})
+			n := b.Nodes[i]
+			if idx, ok := definesVar(g.Info, n, obj); ok {
+				// the definition counts when some way back from it is consistent
+				c2, okc := cons.through(g.Info, n, obj)
+				if okc && (len(c2) == 0 || e.feasibleBack(g, b, i-1, c2, 0)) && !seenDef[n] {
+					seenDef[n] = true
+					defs = append(defs, def{n, cfgq.Point{B: b, I: i}, idx})
+				}
+				return
+			}
+			var okc bool
+			cons, okc = cons.through(g.Info, n, nil)
+			if !okc {
 				return
 			}
 		}
@@ -214,15 +239,312 @@ func (e *Engine) reaching(g *cfgq.Graph, p cfgq.Point, obj types.Object) (defs [
 			fromEntry = true
 		}
 		for _, pb := range preds[b] {
-			if !pb.Live || seen[pb] {
+			if !pb.Live {
 				continue
 			}
-			seen[pb] = true
-			scan(pb, len(pb.Nodes)-1)
+			for si, sb := range pb.Succs {
+				if sb != b {
+					continue
+				}
+				c2, okc := cons.withEdge(e, g, pb, si)
+				if !okc {
+					continue
+				}
+				st := state{pb, c2.key()}
+				if seen[st] {
+					continue
+				}
+				seen[st] = true
+				scan(pb, len(pb.Nodes)-1, c2)
+			}
 		}
 	}
-	scan(p.B, p.I-1)
+	scan(p.B, p.I-1, nil)
 	return
+}
+
+// constraints: what a local must have been (1 = nil/false, 2 = non-nil/true).
+type constraints map[types.Object]int8
+
+func (c constraints) key() string {
+	if len(c) == 0 {
+		return ""
+	}
+	var parts []string
+	for o, v := range c {
+		parts = append(parts, fmt.Sprintf("%p:%d", o, v))
+	}
+	sort.Strings(parts)
+	return strings.Join(parts, ",")
+}
+
+func (c constraints) copy() constraints {
+	n := make(constraints, len(c)+1)
+	for k, v := range c {
+		n[k] = v
+	}
+	return n
+}
+
+// valueClass classifies an assigned expression: 1 nil/false, 2 certainly
+// non-nil/true, 0 unknown.
+func valueClass(info *types.Info, x ast.Expr) int8 {
+	x = ast.Unparen(x)
+	if core.IsNil(info, x) {
+		return 1
+	}
+	if tv, ok := info.Types[x]; ok && tv.Value != nil && tv.Value.Kind() == constant.Bool {
+		if constant.BoolVal(tv.Value) {
+			return 2
+		}
+		return 1
+	}
+	switch v := x.(type) {
+	case *ast.UnaryExpr:
+		if v.Op == token.AND {
+			return 2
+		}
+	case *ast.CallExpr:
+		if f := core.CalleeFunc(info, v); f != nil && f.Pkg() != nil {
+			switch f.Pkg().Path() {
+			case "fmt", "errors", core.Module + "/pkg/libs/errors":
+				switch f.Name() {
+				case "Errorf", "New", "Static":
+					return 2
+				}
+			}
+		}
+	}
+	return 0
+}
+
+// through passes the constraints backwards over cfg node n. skip is the
+// variable whose definition is being looked for (its own assignment in n is not
+// a constraint matter). ok is false when n assigns a constrained variable a
+// value that contradicts the constraint.
+func (c constraints) through(info *types.Info, n ast.Node, skip types.Object) (constraints, bool) {
+	if len(c) == 0 {
+		return c, true
+	}
+	out := c
+	set := func(o types.Object, rhs ast.Expr) bool {
+		want, has := out[o]
+		if !has || o == skip {
+			return true
+		}
+		if rhs != nil {
+			if id, ok := ast.Unparen(rhs).(*ast.Ident); ok && objOf(info, id) == o {
+				return true // x = x
+			}
+		}
+		cl := int8(0)
+		if rhs != nil {
+			cl = valueClass(info, rhs)
+			// x = y: what was required of x is now required of y
+			if id, ok := ast.Unparen(rhs).(*ast.Ident); ok && cl == 0 {
+				if y, isVar := objOf(info, id).(*types.Var); isVar && !y.IsField() && y.Parent() != nil && y.Pkg() != nil && y.Parent() != y.Pkg().Scope() {
+					if have, has := out[y]; has && have != want {
+						return false
+					}
+					out = out.copy()
+					delete(out, o)
+					out[y] = want
+					return true
+				}
+			}
+		}
+		if cl != 0 && cl != want {
+			return false
+		}
+		out = out.copy()
+		delete(out, o)
+		return true
+	}
+	switch x := n.(type) {
+	case *ast.AssignStmt:
+		for i, l := range x.Lhs {
+			id, ok := ast.Unparen(l).(*ast.Ident)
+			if !ok {
+				continue
+			}
+			var rhs ast.Expr
+			if len(x.Lhs) == len(x.Rhs) && (x.Tok == token.ASSIGN || x.Tok == token.DEFINE) {
+				rhs = x.Rhs[i]
+			}
+			if !set(objOf(info, id), rhs) {
+				return nil, false
+			}
+		}
+	case *ast.ValueSpec:
+		for i, nm := range x.Names {
+			var rhs ast.Expr
+			if len(x.Values) == len(x.Names) {
+				rhs = x.Values[i]
+			}
+			o := info.Defs[nm]
+			if len(x.Values) == 0 {
+				// zero value: nil / false
+				if want, has := out[o]; has && o != skip {
+					if want != 1 {
+						return nil, false
+					}
+					out = out.copy()
+					delete(out, o)
+				}
+				continue
+			}
+			if !set(o, rhs) {
+				return nil, false
+			}
+		}
+	case *ast.IncDecStmt:
+		if id, ok := ast.Unparen(x.X).(*ast.Ident); ok {
+			if !set(objOf(info, id), nil) {
+				return nil, false
+			}
+		}
+	}
+	return out, true
+}
+
+// withEdge adds the constraints of leaving block pb through successor si.
+func (c constraints) withEdge(e *Engine, g *cfgq.Graph, pb *cfg.Block, si int) (constraints, bool) {
+	if len(pb.Succs) != 2 {
+		return c, true
+	}
+	out := c
+	for _, ec := range e.edgeConstraints(g, pb, si) {
+		if have, ok := out[ec.obj]; ok {
+			if have != ec.class {
+				return nil, false
+			}
+			continue
+		}
+		out = out.copy()
+		out[ec.obj] = ec.class
+	}
+	return out, true
+}
+
+type edgeCons struct {
+	obj   types.Object
+	class int8
+}
+
+type edgeKey struct {
+	b  *cfg.Block
+	si int
+}
+
+func (e *Engine) edgeConstraints(g *cfgq.Graph, pb *cfg.Block, si int) []edgeCons {
+	if e.edgeCons == nil {
+		e.edgeCons = map[edgeKey][]edgeCons{}
+	}
+	k := edgeKey{pb, si}
+	if v, ok := e.edgeCons[k]; ok {
+		return v
+	}
+	var out []edgeCons
+	cnd := cfgq.CondOf(pb)
+	if cnd != nil && !(pb.Succs[0].Kind == cfg.KindSwitchCaseBody && !isBoolExpr(g.Info, cnd)) {
+		for _, f := range cfgq.Facts(cnd, si == 0) {
+			x := ast.Unparen(f.Expr)
+			val := f.Val
+			if id, ok := x.(*ast.Ident); ok {
+				if o := e.isLocal(objOf(g.Info, id)); o != nil && isBoolExpr(g.Info, id) {
+					cl := int8(1)
+					if val {
+						cl = 2
+					}
+					out = append(out, edgeCons{o, cl})
+				}
+				continue
+			}
+			be, ok := x.(*ast.BinaryExpr)
+			if !ok || be.Op != token.EQL && be.Op != token.NEQ {
+				continue
+			}
+			for _, pr := range [][2]ast.Expr{{be.X, be.Y}, {be.Y, be.X}} {
+				id, ok := ast.Unparen(pr[0]).(*ast.Ident)
+				if !ok || !core.IsNil(g.Info, pr[1]) {
+					continue
+				}
+				if o := e.isLocal(objOf(g.Info, id)); o != nil {
+					isNil := (be.Op == token.EQL) == val
+					cl := int8(2)
+					if isNil {
+						cl = 1
+					}
+					out = append(out, edgeCons{o, cl})
+				}
+			}
+		}
+	}
+	e.edgeCons[k] = out
+	return out
+}
+
+func isBoolExpr(info *types.Info, x ast.Expr) bool {
+	t := info.TypeOf(x)
+	if t == nil {
+		return false
+	}
+	b, ok := t.Underlying().(*types.Basic)
+	return ok && b.Info()&types.IsBoolean != 0
+}
+
+// feasibleBack: some backward path from (b, from) resolves every constraint
+// without contradiction (or reaches the function entry).
+func (e *Engine) feasibleBack(g *cfgq.Graph, b *cfg.Block, from int, cons constraints, depth int) bool {
+	preds := e.predsOf(g)
+	type state struct {
+		b   *cfg.Block
+		key string
+	}
+	seen := map[state]bool{}
+	var walk func(b *cfg.Block, from int, cons constraints) bool
+	walk = func(b *cfg.Block, from int, cons constraints) bool {
+		for i := from; i >= 0; i-- {
+			if i >= len(b.Nodes) {
+				continue
+			}
+			var ok bool
+			cons, ok = cons.through(g.Info, b.Nodes[i], nil)
+			if !ok {
+				return false
+			}
+			if len(cons) == 0 {
+				return true
+			}
+		}
+		if b == g.CFG.Blocks[0] {
+			return true
+		}
+		for _, pb := range preds[b] {
+			if !pb.Live {
+				continue
+			}
+			for si, sb := range pb.Succs {
+				if sb != b {
+					continue
+				}
+				c2, ok := cons.withEdge(e, g, pb, si)
+				if !ok {
+					continue
+				}
+				st := state{pb, c2.key()}
+				if seen[st] {
+					continue
+				}
+				seen[st] = true
+				if walk(pb, len(pb.Nodes)-1, c2) {
+					return true
+				}
+			}
+		}
+		return false
+	}
+	return walk(b, from, cons)
 }
 
 func unknown(s Site, why string) []Case {
@@ -910,6 +1232,9 @@ func (e *Engine) underLocal(g *cfgq.Graph, at cfgq.Point, up []Frame, match func
 					hit = match(cfgq.Fact{Expr: r, Val: f.Val})
 				}
 			}
+			if !hit {
+				hit = e.viaFlag(g, b, up, f, match)
+			}
 			if hit {
 				if res == nil {
 					res = &mention{map[types.Object]bool{}, map[*types.Var]bool{}}
@@ -1269,4 +1594,69 @@ func (e *Engine) walk(g *cfgq.Graph, region ast.Node, up []Frame, visit func(s S
 		}
 		return true
 	})
+}
+
+// viaFlag: the edge fact is a boolean local with a known truth value; when the
+// local is only ever assigned constants, the fact that matters is the one under
+// which it was given that value: `ok = true` only inside `if cond {...}` makes
+// "ok is true" imply cond. All assignments of that value must establish the
+// matched fact.
+func (e *Engine) viaFlag(g *cfgq.Graph, b *cfg.Block, up []Frame, f cfgq.Fact, match func(cfgq.Fact) bool) bool {
+	if e.flagDepth > 2 {
+		return false
+	}
+	x := ast.Unparen(f.Expr)
+	val := f.Val
+	if u, ok := x.(*ast.UnaryExpr); ok && u.Op == token.NOT {
+		x, val = ast.Unparen(u.X), !val
+	}
+	id, ok := x.(*ast.Ident)
+	if !ok || !isBoolExpr(g.Info, id) {
+		return false
+	}
+	obj := e.isLocal(objOf(g.Info, id))
+	if obj == nil || e.unsafeVars(g)[obj] {
+		return false
+	}
+	defs, fromEntry := e.reaching(g, cfgq.Point{B: b, I: len(b.Nodes)}, obj)
+	if fromEntry || len(defs) == 0 {
+		return false
+	}
+	n := 0
+	for _, d := range defs {
+		var rhs ast.Expr
+		zero := false
+		switch st := d.node.(type) {
+		case *ast.AssignStmt:
+			if len(st.Lhs) == len(st.Rhs) && (st.Tok == token.ASSIGN || st.Tok == token.DEFINE) {
+				rhs = st.Rhs[d.idx]
+			}
+		case *ast.ValueSpec:
+			if len(st.Values) == len(st.Names) {
+				rhs = st.Values[d.idx]
+			} else if len(st.Values) == 0 {
+				zero = true
+			}
+		}
+		cl := int8(0)
+		if zero {
+			cl = 1
+		} else if rhs != nil {
+			cl = valueClass(g.Info, rhs)
+		}
+		if cl == 0 {
+			return false // assigned something that is not a constant
+		}
+		if (cl == 2) != val {
+			continue
+		}
+		n++
+		e.flagDepth++
+		ok := e.underLocal(g, d.at, up, match)
+		e.flagDepth--
+		if !ok {
+			return false
+		}
+	}
+	return n > 0
 }
